@@ -406,6 +406,16 @@ def r7_shared_syntax(ctx):
             yield o
 
 
+def r10_shared_character_classes(ctx):
+    """a value of the wrong character class is rejected: the string / identifier recogniser must reject every value that
+    has a character outside the set the interchange declares (basic, extended, 5010 extended), numbers, dates and times
+    every text outside their language.  C13.R1 (shared): regular expressions equal the X12 value languages, the
+    selector picks the set the call names, and the wrappers return the expression's verdict."""
+    from . import c13
+    for o in c13.r1_languages(ctx):
+        yield o
+
+
 RULES = [
     Rule('C03.R1', 'element reports dominated by a fresh add_ele in the same activation', r1_element_attachment, floor=15),
     Rule('C03.R2', 'walker segment reports dominated by add_seg in the same function', r2_segment_attachment, floor=3),
@@ -415,5 +425,6 @@ RULES = [
     Rule('C03.R6', 'shared with C02.R5: walker counting/ordering atoms (pending mandatory nodes are reported, limits, positions)', r6_shared_walker, floor=10),
     Rule('C03.R9', 'shared with C05.R14: error totals are sums over the whole error tree', r9_shared_error_totals, floor=3),
     Rule('C03.R8', 'shared with C18.R2: the validating modules keep no module/class-level state and cache nothing across calls', r8_no_state_between_documents, floor=8),
+    Rule('C03.R10', 'shared with C13.R1: recogniser languages, selector table and wrappers (a wrong character class is rejected)', r10_shared_character_classes, floor=15),
     Rule('C03.R7', 'shared with C14.R3/R4: syntax-note semantics and routing', r7_shared_syntax, floor=8),
 ]
